@@ -65,7 +65,7 @@ func C08(p *core.Program, r *core.Report) {
 					continue
 				}
 				nKeys++
-				key := core.Strip(core.CallArgs(c)[0])
+				key := core.Strip(core.Arg(c, 0))
 				okK := isScrubString(key) || pathEndsWith(key, "Id")
 				r.Check(okK, fmt.Sprintf("key-derivation/%s/bh.%s", fname(fn), m), "the index key is BundleID.Scrub().String() of the bundle, directly or through BundleItem.Id", p.Pos(c.Pos()), "", "key is neither Scrub().String() nor a BundleItem.Id: "+valStr(key))
 			}
